@@ -259,7 +259,9 @@ func runC13(c *Ctx) {
 
 	runFlagTyping(c, "C13-R4")
 	checkCreditRewriteFlags(c, "C13-R4")
+	checkExistsThenPut(c, "C13-R4")
 	checkConflictRemoval(c, "C13-R5")
+	checkLoopCarriedStructs(c, "C13-R5", []string{"rollback", "updateMinedBalance"})
 }
 
 // valueFromNilTest: v is (call(name) != nil).
